@@ -133,3 +133,39 @@ def random_history(rng, n_ops=None, translate=True, smiles=None):
             else:
                 ops.append(['enc', rng.choice(smiles), rng.random() < 0.5, rng.random() < 0.3])
     return ops
+
+
+def h_boundary(rng):
+    """an atom symbol whose explicit H count is one or two above what table SMALL allows for the element and fits table BIG;
+    -> dict(sym, selfies, smiles, small, big) with small/big as ['name', preset] or ['items', [[k, v], ...]]"""
+    from core import sf
+    s_ = sf()
+    if rng.random() < 0.35:
+        e, h, small, big = rng.choice([('P', 5, 'octet_rule', 'default'), ('P', 4, 'octet_rule', 'hypervalent'), ('S', 3, 'octet_rule', 'default'),
+                                       ('S', 5, 'octet_rule', 'hypervalent'), ('N', 4, 'default', 'hypervalent'), ('N', 5, 'octet_rule', 'hypervalent'),
+                                       ('Cl', 3, 'default', 'hypervalent'), ('Br', 2, 'octet_rule', 'hypervalent')])
+        small, big = ['name', small], ['name', big]
+    else:
+        base = s_.get_preset_constraints(rng.choice(['default', 'octet_rule', 'hypervalent']))
+        e = rng.choice(['C', 'N', 'O', 'P', 'S', 'B', 'F', 'Si', 'Se'])
+        cap = base.get(e, base['?'])
+        if rng.random() < 0.5:
+            cap = rng.randint(0, 5)
+        ts = dict(base); ts[e] = cap
+        h = cap + rng.randint(1, 2)
+        if h > 9:
+            h = 9; ts[e] = 8 if e in ts else ts.get(e, 8); ts[e] = min(ts[e], 8)
+        tb = dict(base); tb[e] = h + rng.randint(0, 2)
+        small, big = ['items', [[k, v] for k, v in ts.items()]], ['items', [[k, v] for k, v in tb.items()]]
+    pre = rng.choice(['', '', '=', '#', '/'])
+    hs = 'H' if (h == 1 and rng.random() < 0.5) else 'H%d' % h
+    sym = '[%s%s%s]' % (pre, e, hs)
+    return {'sym': sym, 'selfies': rng.choice(['%s', '[C]%s', '[C]%s[C]', '%s[F]', '[O][C]%s[Branch1][C][F][C]']).replace('%s', sym),
+            'smiles': rng.choice(['[%s%s]', 'C[%s%s]', 'C[%s%s]C', 'F[%s%s]']) % (e, hs), 'small': small, 'big': big}
+
+
+def set_ops(t, held):
+    """ops that put table t in force; held = number of objects held so far -> (ops, new_held)"""
+    if t[0] == 'name':
+        return [['set', ['name', t[1]]]], held
+    return [['new', t[1]], ['set', ['held', held]]], held + 1
